@@ -109,6 +109,8 @@ EDITS = {
         ("st03", ST + "tree.rs", "DELAY_ADDITIONAL_OFFSET as u64 + *len", "*len", "verus", "state_tree"),
     ],
     "C12": [
+        ("lx01", "crates/lib/mimium-lang/src/compiler/mirgen.rs", "                        let value = self.push_inst(Instruction::Load(ptr, ty));\n                        self.insert_release_recursively(value, ty);", "                        let value = self.push_inst(Instruction::Load(ptr, ty));\n                        self.insert_release_recursively(value.clone(), ty);\n                        self.insert_release_recursively(value, ty);", "verus", "mirgen_rc"),
+        ("lx02", "crates/lib/mimium-lang/src/compiler/mirgen.rs", "                        let value = self.push_inst(Instruction::Load(ptr, ty));\n                        self.insert_release_recursively(value, ty);", "                        let value = self.push_inst(Instruction::Load(ptr, ty));\n                        self.insert_close_closures_recursively(value.clone(), ty);\n                        self.insert_release_recursively(value, ty);", "verus", "mirgen_rc"),
         ("px01", "crates/lib/mimium-lang/src/compiler/mirgen.rs", "                self.insert_clone_recursively(res.clone(), elem_ty);\n                (res, elem_ty, states)", "                (res, elem_ty, states)", "verus", "mirgen_rc"),
         ("px02", "crates/lib/mimium-lang/src/compiler/mirgen.rs", "                        self.insert_clone_recursively(res.clone(), field_ty);", "                        self.insert_clone_recursively(res.clone(), expr_ty);", "verus", "mirgen_rc"),
         ("px03", "crates/lib/mimium-lang/src/compiler/mirgen.rs", "                        self.insert_clone_recursively(res.clone(), field_ty);", "                        self.insert_clone_recursively(expr_v.clone(), field_ty);", "verus", "mirgen_rc"),
